@@ -257,6 +257,29 @@ def c15(res):
                       "independent numeric executor")
 
 
+def c12(res):
+    wd = workdir("C12")
+    q = res.tier == "quick"
+    res.models.append(model_check("Context", "Context_quick.cfg" if q else "Context_thorough.cfg", wd, workers=8, timeout=6000))
+    cases = os.path.join(wd, "cases.out")
+    res.gens.append(generate("ContextCases", "ContextCases.cfg", wd, cases, workers=1))
+    progs = gen_programs(res, wd)
+    trace = os.path.join(wd, "trace.ndjson")
+    if not run_recorder(res, "ctxrec", ["c12", cases + "," + progs, res.tier, trace], wd, timeout=3000):
+        return res.finish("recorder crashed")
+    n, rej = validate("Trace_C12", trace, wd, timeout=3000)
+    res.validated = n - len(rej)
+    res.evaluations = n
+    res.samples = sample_lines(trace, maxlen=3000)
+    res.add_rejects(trace, rej, lambda r, f: "ev=%s tag=%s fails=%s" % (r.get("ev"), r.get("tag", r.get("depth", "")), "+".join(sorted(f))))
+    res.assumptions = ["stack depth of the real code is observed (256 KiB stack in a child process), not modelled",
+                       "evaluations that leave the finite range or feed a zero to a sign-of-zero sensitive operation are outside the claim"]
+    return res.finish("one implementation test per operand-class case of the rewrite table (unary o unary, binary op x operand classes, "
+                      "nested constant merging) enumerated by ContextCases.tla, generator programs and random programs with special "
+                      "constants and shared subtrees, each built through the constructors and as a Tree and evaluated against the "
+                      "unsimplified expression; deduplication, export/import, tree equality and hashing; deep chains; a case = one expression")
+
+
 def c13(res):
     wd = workdir("C13")
     q = res.tier == "quick"
@@ -384,7 +407,7 @@ def c11(res):
                       "Function and Shape APIs; a case = one call")
 
 
-CHECKS = {"C01": c01, "C03": c03, "C05": c05, "C06": c06, "C07": c07, "C09": c09, "C11": c11, "C13": c13, "C02": c02, "C04": c04, "C10": c10, "C14": c14, "C15": c15, "C20": c20}
+CHECKS = {"C01": c01, "C03": c03, "C05": c05, "C06": c06, "C07": c07, "C09": c09, "C11": c11, "C12": c12, "C13": c13, "C02": c02, "C04": c04, "C10": c10, "C14": c14, "C15": c15, "C20": c20}
 
 
 def replay(prop, path):
